@@ -57,6 +57,9 @@ def _gen_module(r, shared_names):
         else:
             L.append(f"{{P}}{g} = {r.randint(2, 60)}")
             L.append(f"{{P}}{g} += d{r.randrange(6)}.{r.choice(INP)}")
+    if r.random() < 0.5:
+        # top-level code with a visible effect: the libraries run in the order of the import statements
+        L.insert(r.randint(0, len(L)), f"d{r.randrange(6)}.{r.choice(CELLW)} = {r.randint(1000, 1999)}")
     funcs = []
     for k, f in enumerate(fnames):
         npar = r.randint(0, 3)
@@ -153,7 +156,11 @@ def gen_case(task, i):
         else:
             B.append(f"    for i{len(B)} in range({r.randint(1, 3)}):")
             B.append(call(2))
-    return dict(mods=mods, imports=imports, body="\n".join(B), stream=task["stream"], vectors=[dict(append_version=False), dict(append_version=False, inline_functions=False), dict(r.choice(CORNERS), append_version=False, remove_labels=r.random() < 0.5, compact=r.random() < 0.5)], env_seeds=[f"{i}:0", f"{i}:1"])
+    # the caller's {name: source} mapping may list the sources in any order
+    key_order = [m["name"] for m in mods] + [""]
+    if r.random() < 0.6:
+        r.shuffle(key_order)
+    return dict(mods=mods, imports=imports, key_order=key_order, body="\n".join(B), stream=task["stream"], vectors=[dict(append_version=False), dict(append_version=False, inline_functions=False), dict(r.choice(CORNERS), append_version=False, remove_labels=r.random() < 0.5, compact=r.random() < 0.5)], env_seeds=[f"{i}:0", f"{i}:1"])
 
 
 def render(case, drop_unused=False):
@@ -179,6 +186,8 @@ def render(case, drop_unused=False):
         body_merged = body_merged.replace("{" + k + "}", refs_merged[k])
     multi[""] = HEADER + "\n".join(case["imports"]) + "\n" + body_multi + "\n"
     merged.append(body_merged)
+    if case.get("key_order"):
+        multi = {k: multi[k] for k in case["key_order"]}
     return multi, "\n".join(merged) + "\n"
 
 
